@@ -65,6 +65,13 @@ PrefixesLegal(live, parts) == \A n \in DOMAIN parts : ~Conflict(NetLive(live, Su
 AllAdds(parts) == UNION {{Comps(r[1]) : r \in {r \in Range(parts[p].refs) : ~IsDelRef(r)}} : p \in DOMAIN parts}
 TxnAccept(live, parts) == (\A a \in AllAdds(parts) : WellFormed(a)) /\ ~Conflict(NetLive(live, parts, 1))
 
+(* C16, sequentially: after every call that returned, the directory holds no lock, no temporary, and exactly the listed tables *)
+(* (other handles that still hold tables of an older version open are not the caller's residue: stale tables are removed   *)
+(* by whoever delisted them, so the count of *.ref files equals the length of the list when every handle is current)       *)
+Residue(ev, shape) == IF "residue" \in DOMAIN ev
+                      THEN Fail(ev.residue.locks = 0 /\ ev.residue.tmps = 0, "C16_SeqNoLockNoTemp") \cup Fail(ev.residue.refs = Len(shape), "C16_SeqNoOrphanTable")
+                      ELSE {}
+
 (* the compaction an auto-compacting Add performed, read off the logged shape *)
 AutoRanges(ts, shape) == {ij \in (DOMAIN ts) \X (DOMAIN ts) : ij[1] < ij[2] /\ Shape(Compact(ts, ij[1], ij[2], NoExpiry)) = shape}
 
@@ -104,6 +111,7 @@ TAdd ==
           \cup (IF foreign THEN Cmp(E.res, ownRes, "C15_AcceptAgree") ELSE {})
           \cup Cmp(E.dirshape, Shape(after), IF expRes = "ok" THEN (IF E.auto THEN "C17_AutoCompactRange" ELSE "C04_StackAfterAdd") ELSE "C09_DirUnchanged")
           \cup Fail(E.res # "ok" \/ ~E.namecheck \/ ~Conflict(LiveNames(after)), "C12_NoConflict")
+          \cup Residue(E, E.dirshape)
   /\ Step
 
 TCompact ==
@@ -122,6 +130,7 @@ TCompact ==
           \cup Cmp(E.dirshape, Shape(after), IF stale THEN "C09_StaleCompactNoop" ELSE "C07_StackAfterCompact")
           \cup Fail(noop \/ e # NoExpiry \/ ViewPreserved(tabs, after), "C07_SpecViewPreserved")
           \cup Fail(noop \/ ExpiryExact(tabs, after, e), "C13_SpecExpiryExact")
+          \cup Residue(E, E.dirshape)
   /\ Step
 
 (* what is on disk, decoded independently, is what the specification computed *)
@@ -138,6 +147,7 @@ TView ==
         \cup (IF E.ok THEN Cmp(E.logs, LogView(ts), E.tag \o "_LogView") ELSE {})
         \cup (IF E.ok /\ E.hasraw THEN Cmp(E.rawrefs, RawRefs(ts), "C03_RawRefs") ELSE {})
         \cup (IF E.ok /\ E.hasraw THEN Cmp(E.rawlogs, RawLogs(ts), "C03_RawLogs") ELSE {})
+        \cup (IF "interleave" \in DOMAIN E THEN Cmp(E.interleave, "", "C03_StableResults") ELSE {})
   /\ UNCHANGED <<tabs, loaded, nextTab>> /\ Step
 
 TSeekRef ==
